@@ -288,3 +288,81 @@ def history_of(events, hw):
     while j > 0 and events[j]["ev"] != "Reset":
         j -= 1
     return events[j:i + 1]
+
+
+# ------------------------------------------------------------------------------------------------------ classification
+def class_cfg(c, dev):
+    """trace cfg for re-validating one observed history with exactly one deviation enabled (DESIGN 1.6): the instance's
+    slots and maximum, every environment restriction lifted, no invariants (the deviation breaks them by design)"""
+    cc = dict(c)
+    cc.update({"FullSlots": c["Slots"], "GoneP": S("A", "B"), "Modes": S("enc", "plain", "badkey", "nosock"),
+               "MaxDg": 1000000, "MaxErr": 1000000, "Worlds": "{TRUE,FALSE}", "Split": "FALSE"})
+    return ("CONSTANTS %s Dev = {%s} Emit = FALSE\nINIT TraceInit\nNEXT TraceNext\nCONSTRAINT HighWater\n"
+            "POSTCONDITION TraceAccepted\n" % (" ".join("%s = %s" % kv for kv in cc.items()),
+                                               ",".join('"%s"' % d for d in dev)))
+
+
+def history_events(doc, mm):
+    """the history of a replay mismatch as trace events: the specification's projected states for the steps that matched,
+    the REAL result and state for the last one"""
+    st = doc["states"]
+    init = st[mm["init"]]
+    ev = [{"ev": "Reset", "enabled": init["enabled"], "st": proj(init)}]
+    n = len(mm["prefix"])
+    for i, (a, ti) in enumerate(zip(mm["prefix"], mm["prefix_t"])):
+        last = i == n - 1
+        ev.append({"ev": a["act"], "s": a["s"], "m": a["m"], "res": mm["real_res"] if last else a["res"],
+                   "st": mm["real_t"] if last else proj(st[ti])})
+    return ev
+
+
+def accepted_by(ctx, tag, c, events, devsets):
+    """-> {name: bool}: is the recorded history a behaviour of the specification with the deviations devsets[name]?
+    One small TLC run per entry, side by side."""
+    import glob, shutil, re, time
+    path = os.path.join(ctx.work, "cls_%s.ndjson" % tag)
+    vf.write_ndjson(path, events)
+
+    def one(item):
+        name, dev = item
+        d = ctx.scratch("cls_%s_%s" % (tag, name))
+        for f in glob.glob(os.path.join(vf.SPEC, "*DatagramSession*")):
+            shutil.copy(f, d)
+        with open(os.path.join(d, "MC.cfg"), "w") as f:
+            f.write(class_cfg(c, dev))
+        e = dict(os.environ)
+        e.pop("JAVA_TOOL_OPTIONS", None)
+        e["TRACE_FILE"] = path
+        cmd = ["java", "-XX:+UseParallelGC", "-Xss64m", "-Xmx2g", "-cp", vf.TLA_CP, "tlc2.TLC", "-config", "MC.cfg",
+               "-metadir", os.path.join(d, "states"), "-workers", "1", "-noGenerateSpecTE", "-deadlock",
+               "TraceDatagramSession.tla"]
+        try:
+            p = subprocess.run(cmd, cwd=d, env=e, stdout=subprocess.PIPE, stderr=subprocess.STDOUT, timeout=900, text=True,
+                               errors="replace")
+        except subprocess.TimeoutExpired:
+            raise vf.Infra("TLC timeout while classifying a mismatch (%s)" % name)
+        hw = re.findall(r'^"HW (\d+)"$', p.stdout, re.M)
+        ln = re.findall(r'^"LEN (\d+)"$', p.stdout, re.M)
+        if not hw or not ln:
+            raise vf.Infra("classification run %s did not reach its postcondition:\n%s" % (name, p.stdout[-2000:]))
+        return name, int(hw[-1]) == int(ln[-1]) + 1
+
+    with ThreadPoolExecutor(max_workers=min(12, len(devsets))) as ex:
+        return dict(ex.map(one, list(devsets.items())))
+
+
+CLASS_DEVS = ["DevCounterNotDecrementedOnErr", "DevCloseTwiceNotifiesTwice", "DevIdleCleanupKeepsRecord",
+              "DevDatagramAfterClose", "DevLimitCheckThenAct", "DevReplyToWrongAssociation", "DevCloseNotifiesWrongPeer",
+              "DevErrKeepsSocket", "DevKeyedByStreamIdOnly"]
+
+
+def classify(ctx, tag, c, doc, mm):
+    """deviations under which the real behaviour of the mismatch is a behaviour of the specification ([] = none; the
+    ideal specification is asked too: if IT accepts the history the mismatch is a replay artefact -> Infra)"""
+    ev = history_events(doc, mm)
+    sets = {"ideal": []}
+    sets.update({d: [d] for d in CLASS_DEVS})
+    acc = accepted_by(ctx, tag, c, ev, sets)
+    if acc.get("ideal"):
+        raise vf.Infra("replay mismatch whose history the ideal specification accepts (harness / cover error): %s" % describe(mm))
+    return [d for d in CLASS_DEVS if acc.get(d)]
